@@ -37,10 +37,11 @@ pub fn analyze_order(egraph: &EGraph, enode: &Expr) -> OrderKey {
         Proj([_, c]) | Filter([_, c]) | Window([_, c]) | Limit([_, _, c]) => x(c).clone(),
         // a merge join emits its matches in key order, but a NULL-padded row has no key on the
         // padded side: the output is ordered by the keys of a side only if no row of that side
-        // can be padding
-        MergeJoin([t, _, _, _, l, r]) => match egraph[*t].nodes[0] {
-            Inner | RightOuter => x(r).clone(),
-            LeftOuter => x(l).clone(),
+        // can be padding. Only the JOIN KEYS' order carries over: within one key the matches are
+        // emitted left-row-major, whatever else the input was ordered by.
+        MergeJoin([t, _, lkeys, rkeys, _, _]) => match egraph[*t].nodes[0] {
+            Inner | RightOuter => x(rkeys).clone(),
+            LeftOuter => x(lkeys).clone(),
             _ => Box::new([]),
         },
         SortAgg([_, _, c]) => x(c).clone(),
